@@ -93,12 +93,14 @@ class AsyncChannel(AsyncIterable[T]):
         self._waiting_receivers += 1
         try:
             result = await self._queue.get()
+            # Only a successful get() took an item off the queue; a cancelled or
+            # timed out get() must not be reported to the queue as a finished task.
+            self._queue.task_done()
             if result is self.__flush:
                 raise StopAsyncIteration
             return result
         finally:
             self._waiting_receivers -= 1
-            self._queue.task_done()
 
     def closed(self) -> bool:
         """
@@ -164,12 +166,14 @@ class AsyncChannel(AsyncIterable[T]):
         self._waiting_receivers += 1
         try:
             result = await self._queue.get()
+            # Only a successful get() took an item off the queue; a cancelled or
+            # timed out get() must not be reported to the queue as a finished task.
+            self._queue.task_done()
             if result is self.__flush:
                 return None
             return result
         finally:
             self._waiting_receivers -= 1
-            self._queue.task_done()
 
     def close(self):
         """
